@@ -510,6 +510,9 @@ Proof.
 Qed.
 End FoldPut.
 
+Lemma amap_put_ne_ne ow k v m : k <> [] -> amap_put_ne ow k v m = amap_put ow k v m.
+Proof. destruct k; [congruence | reflexivity]. Qed.
+
 Theorem C18_variant_table_core : forall acr defaults S0 S1 sw rw styles S amb,
   wf_acr acr = true -> visible S0 = true -> visible S1 = true -> visible S = true ->
   (2 <= length sw)%nat -> rw <> [] -> all_neutral acr sw = true -> all_neutral acr rw = true ->
@@ -523,7 +526,7 @@ Proof.
   assert (E : forall m0,
               fold_left (fun m s =>
                 fold_left (fun m (pr : list bytes * list bytes) =>
-                  amap_put false (to_style acr (fst pr) s) (to_style acr (snd pr) s) m)
+                  amap_put_ne false (to_style acr (fst pr) s) (to_style acr (snd pr) s) m)
                   [(toks_of S0 sw, toks_of S1 rw)] m) styles m0 =
               put_all (fun s => to_style acr sw s) (fun s => to_style acr rw s) styles m0).
   { clear Hin. unfold put_all. induction styles as [|s styles IH]; intros m0; [reflexivity|].
@@ -531,6 +534,11 @@ Proof.
     rewrite (to_style_good acr _ sw s (toks_of_good acr S0 sw Hns)).
     rewrite (to_style_good acr _ rw s (toks_of_good acr S1 rw Hnr)).
     rewrite <- (to_style_render acr sw s Hns), <- (to_style_render acr rw s Hnr).
+    assert (Hne : to_style acr sw s <> []).
+    { rewrite (to_style_render acr sw s Hns). destruct sw as [|[|c w1] ws']; [congruence| |].
+      - cbn in Hns. discriminate.
+      - destruct (render_hd s c w1 ws') as [s' Hs']. intro E. pose proof (eq_trans (eq_sym Hs') E) as X. discriminate X. }
+    rewrite (amap_put_ne_ne false _ _ _ Hne).
     apply IH. }
   unfold variant_map_core, variant_models.
   rewrite (tokens_render acr S0 sw Hwf Hv0 Hsne Hns), (tokens_render acr S1 rw Hwf Hv1 Hrne Hnr).
